@@ -40,11 +40,21 @@ func CalleeObj(c ssa.CallInstruction) *types.Func {
 	return nil
 }
 
+// FuncAlias: functions analysed under the name they had on the reference tree (load.detectRenames).
+var FuncAlias = map[*types.Func]string{}
+
 // FuncID renders "pkgpath.(Recv).Name" or "pkgpath.Name" for a *types.Func.
 func FuncID(f *types.Func) string {
 	if f == nil {
 		return ""
 	}
+	if old, ok := FuncAlias[f]; ok {
+		return strings.TrimSuffix(funcID(f), f.Name()) + old
+	}
+	return funcID(f)
+}
+
+func funcID(f *types.Func) string {
 	sig := f.Type().(*types.Signature)
 	pkg := ""
 	if f.Pkg() != nil {
